@@ -83,7 +83,11 @@ func genC09(seed uint64, run int, tier string) *RunSpec {
 			}
 			c := f.Versions[0].Content
 			f.Versions = append(f.Versions, FileVersion{Content: editContent(c, "edited"), MtimeNs: f.Versions[0].MtimeNs + 5_000_000_000})
-			spec.Edits = append(spec.Edits, EditEvent{Step: 1 + int64(r.Intn(int(horizon))), File: f.Name, To: 1})
+			e := EditEvent{Step: 1 + int64(r.Intn(int(horizon))), File: f.Name, To: 1}
+			if r.Chance(40) {
+				e.AtCall = 1 + r.Intn(12) // right after the n-th access of the file: inside some task's load of it
+			}
+			spec.Edits = append(spec.Edits, e)
 			if r.Chance(30) {
 				spec.Edits = append(spec.Edits, EditEvent{Step: 1 + int64(r.Intn(int(horizon))), File: f.Name, To: 0})
 			}
@@ -207,7 +211,10 @@ func execC09(spec *RunSpec) *Result {
 		res.addStat("schedule_truncated", 1)
 	}
 	if rep.Deadlock {
+		// the blocked operations never returned: their (empty) results say nothing more than the deadlock itself
 		res.violate("C09", "deadlock", "tasks deadlock on vuego's locks", "all live tasks were blocked on locks")
+		res.Cover = dedup(res.Cover)
+		return res
 	}
 	if rep.PoolDirty > 0 {
 		res.violate("C09", "use-after-put", "pooled object modified while owned by the pool", "%d pooled scope map(s) were written to between Put and Get", rep.PoolDirty)
